@@ -124,26 +124,26 @@ fn c06_int_sums_3x2_c_f() {
     int_sums_2d::<3, 2, 6>(0, 1);
 }
 
-/// 1-D integer lane carved from a buffer (stride / reversal), i64 payloads from i16.
-//@ prop=C06,C20 tier=quick mem=4 timeout=1800 inst="ArrayView1<i64>, data reversed stride 2, weights stride 3, len 4" bounds="all i16-range payloads; unwind 14" cbmc="--unwindset memcmp.0:33"
+/// 1-D integer lanes carved from buffers (stride / reversal).
+//@ prop=C06,C20 tier=quick mem=4 timeout=1800 inst="ArrayView1<i32>, data reversed stride 2, weights stride 3, len 4" bounds="all i8-range payloads; unwind 14"
 #[kani::proof]
 #[kani::unwind(14)]
-fn c06_int_sums_1d_i64() {
-    let pd: [i16; 9] = kani::any();
-    let pw: [i16; 13] = kani::any();
-    let mut bd = [0i64; 9];
-    let mut bw = [0i64; 13];
+fn c06_int_sums_1d_i32() {
+    let pd: [i8; 9] = kani::any();
+    let pw: [i8; 13] = kani::any();
+    let mut bd = [0i32; 9];
+    let mut bw = [0i32; 13];
     let mut k = 0;
     while k < 13 {
         if k < 9 {
-            bd[k] = pd[k] as i64;
+            bd[k] = pd[k] as i32;
         }
-        bw[k] = pw[k] as i64;
+        bw[k] = pw[k] as i32;
         k += 1;
     }
-    let mut s = 0i64;
-    let mut ws = 0i64;
-    let mut wsum = 0i64;
+    let mut s = 0i32;
+    let mut ws = 0i32;
+    let mut wsum = 0i32;
     let mut t = 0;
     while t < 4 {
         let (x, w) = (bd[pos1(4, 4, t)], bw[pos1(2, 4, t)]);
